@@ -187,7 +187,12 @@ def pybind_exports(src: str):
 
 
 def defines(src: str) -> dict:
-    return {m.group(1): m.group(2) for m in re.finditer(r"^\s*#define\s+(\w+)\s+(\S+)\s*$", strip_comments(src), re.M)}
+    """named integer constants: #define NAME value, and (static) const / constexpr int NAME = value;"""
+    src = strip_comments(src)
+    out = {m.group(1): m.group(2) for m in re.finditer(r"^\s*#define\s+(\w+)\s+(\S+)\s*$", src, re.M)}
+    for m in re.finditer(r"^\s*(?:static\s+|inline\s+)*(?:constexpr|const)\s+(?:static\s+)?(?:u?int\d*_t|int|long|unsigned|auto)\s+(\w+)\s*=\s*(-?\d+)\s*;", src, re.M):
+        out[m.group(1)] = m.group(2)
+    return out
 
 
 def kind_of_type(t: str) -> str:
@@ -390,7 +395,8 @@ def statements(body: str):
     return [s for s in out if s and s != ";"]
 
 
-_ASSIGN = re.compile(r"^(?:(?:const\s+)?(?:auto|at::Tensor|torch::Tensor)\s*&?\s+)?([A-Za-z_]\w*(?:->\w+|\.\w+)?)\s*=\s*(?!=)(.*);$", re.S)
+_ASSIGN = re.compile(r"^(?:(?:const\s+)?(?:auto|at::Tensor|torch::Tensor|u?int\d*_t|int|long|size_t|double|float|bool|at::IntArrayRef|c10::IntArrayRef)\s*&?\s+)?"
+                     r"([A-Za-z_]\w*(?:->\w+|\.\w+)?)\s*=\s*(?!=)(.*);$", re.S)
 _DECL = re.compile(r"^(?:at::Tensor|torch::Tensor)\s+[A-Za-z_]\w*\s*;$")
 
 
